@@ -455,6 +455,50 @@ func rulesC10(p *Prog, r *Report) {
 		}
 	}
 
+	// R10.8 ------------------------------------------------------------------------
+	// What is left to sell is the auction's own remaining collateral, which every bid reduces; the
+	// seizure record (LockedVault) keeps the amount originally seized. A bid-size comparison
+	// against the seizure record lets a late bid take more than is left.
+	r.Rule("R10.8", "bid-size comparisons use the auction's remaining collateral, never the amount originally seized", 2)
+	for _, name := range []string{"x/auction/keeper.Keeper.PlaceDutchAuctionBid", "x/auction/keeper.Keeper.PlaceLendDutchAuctionBid", "x/auctionsV2/keeper.Keeper.PlaceDutchAuctionBid"} {
+		fn := p.MustFunc(name)
+		n := 0
+		for _, b := range fn.Blocks {
+			ifi, ok := b.Instrs[len(b.Instrs)-1].(*ssa.If)
+			if !ok {
+				continue
+			}
+			conds := []ssa.Value{ifi.Cond}
+			if ph, isPhi := ifi.Cond.(*ssa.Phi); isPhi {
+				conds = ph.Edges
+			}
+			for _, cond := range conds {
+				x, y, _, _, isCmp := p.CmpRel(cond)
+				if !isCmp || x == nil || y == nil {
+					continue
+				}
+				fromAuction := func(v ssa.Value) bool {
+					return p.fromRecordFieldsLoose(v, map[string]bool{"Auction": true, "DutchAuction": true}, map[string]bool{"CollateralToken": true, "OutflowTokenCurrentAmount": true})
+				}
+				fromSeizure := func(v ssa.Value) bool {
+					return p.fromRecordFieldsLoose(v, map[string]bool{"LockedVault": true}, map[string]bool{"CollateralToken": true, "AmountIn": true, "CollateralToBeAuctioned": true})
+				}
+				if !(fromAuction(x) || fromAuction(y) || fromSeizure(x) || fromSeizure(y)) {
+					continue
+				}
+				n++
+				r.Instance("R10.8")
+				r.FuncsSeen[fname(fn)] = true
+				construct := fmt.Sprintf("%s collateral comparison #%d", fname(fn), n)
+				if fromSeizure(x) || fromSeizure(y) {
+					r.Fail("R10.8", construct, "a bid is sized against the collateral originally seized (LockedVault), not against what the auction still holds: after earlier bids a closing bid can be paid more collateral than is left, out of other auctions' custody", p.instrPos(ifi), nil)
+				} else {
+					r.OK("R10.8", construct, "compared with the auction's remaining collateral", p.instrPos(ifi))
+				}
+			}
+		}
+	}
+
 	// R10.2 ------------------------------------------------------------------------
 	r.Rule("R10.2", "V2 collateral amounts come from the stored auction price and the debt price; reserve top-up from the auction's remaining debt", 3)
 	{
